@@ -29,11 +29,12 @@ import ast
 from fractions import Fraction
 
 from . import e2_formula as F
-from .c20_flow import (ALIAS, RELS, STATS, Bracket, Ev, World, const_truth, const_value, enumerate_paths, flip, fn_atoms, literals, opaque_calls, peel, rat, resolve,
+from .c20_flow import (ALIAS, RELS, STATS, Bracket, Ev, World, const_truth, const_value, enumerate_paths, flip, fn_atoms, literals, opaque_calls, rat, resolve,
                        same, symbols, symname)
 from .core import AnchorError, Unsupported
 from .e2_eval import DictValue, Unknown, _assigned_names, is_unknown, need
 from .sem import place, unfn
+from .c20_flow import peel as _peel0
 
 
 def _sig(fn):
@@ -639,6 +640,29 @@ def _calls_of(paths):
 
 # scipy.optimize.brentq defaults
 XTOL, RTOL = Fraction("2e-12"), Fraction("8.881784197001252e-16")
+
+
+def peel(v):
+    """c20_flow.peel, reading -floor(-x) as ceil(x) (the same integer for every real x): int(-floor(-each(x))) -> (['int', 'ceil', 'each'], x)"""
+    names = []
+    for _ in range(8):
+        nm, v = _peel0(v)
+        names += nm
+        try:
+            t = v.n.t if rat(v) and v.d.is_const() and v.d.const_value() == 1 else None
+        except Exception:  # noqa
+            t = None
+        if not t or len(t) != 1:
+            break
+        (mono, c), = t.items()
+        if c != -1 or len(mono) != 1 or mono[0][1] != 1 or F.atom_desc(mono[0][0])[:2] != ("fn", "floor"):
+            break
+        u = unfn(-v)
+        if not u or u[0] != "floor" or len(u[1]) != 1 or not rat(u[1][0]):
+            break
+        names.append("ceil")
+        v = -u[1][0]
+    return names, v
 
 
 def _lift_each(core, depth=0):
